@@ -75,6 +75,24 @@ theorem C10_restore (chip : Chip) (sh : Regs) (hco : Coherent sh chip.regs) (h7D
     all_goals
       simp [selfTestActs, aexec, Chip.write, applyEff, trunc, selftest_trunc, Regs.set, *]
 
+/-- without the assumption that SELF_TEST was idle before (an earlier test may have been cut
+    by a bus error with the excitation still applied): every OTHER register is restored and
+    SELF_TEST is left idle -/
+theorem C10_restore_any (chip : Chip) (sh : Regs) (hco : Coherent sh chip.regs) :
+    (∀ a, a ≠ 0x7D → (aexec chip sh (selfTestActs sh) []).1.regs a = chip.regs a) ∧
+    (aexec chip sh (selfTestActs sh) []).1.regs 0x7D = 0#8 := by
+  have c19 := hco 0x19 (by decide); have c1A := hco 0x1A (by decide); have c1F := hco 0x1F (by decide)
+  have c20 := hco 0x20 (by decide); have c2D := hco 0x2D (by decide); have c26 := hco 0x26 (by decide)
+  have key : ∀ a : Nat, a = 38 ∨ a = 45 ∨ a = 32 ∨ a = 31 ∨ a = 26 ∨ a = 25 ∨ a = 125 ∨
+      (a ≠ 38 ∧ a ≠ 45 ∧ a ≠ 32 ∧ a ≠ 31 ∧ a ≠ 26 ∧ a ≠ 25 ∧ a ≠ 125) := by intro a; omega
+  constructor
+  · intro a ha
+    rcases key a with rfl | rfl | rfl | rfl | rfl | rfl | rfl | ⟨n1, n2, n3, n4, n5, n6, n7⟩
+    all_goals first
+      | exact absurd rfl ha
+      | simp [selfTestActs, aexec, Chip.write, applyEff, trunc, selftest_trunc, Regs.set, *]
+  · simp [selfTestActs, aexec, Chip.write, applyEff, trunc, selftest_trunc, Regs.set]
+
 /-- the data the two reads return: the positive, then the negative excitation response -/
 theorem C10_reads (chip : Chip) (sh : Regs) :
     (aexec chip sh (selfTestActs sh) []).2.2 =
@@ -94,14 +112,15 @@ theorem C10_verdict (p n : List Byte) :
 
 /-- C10, fault-free, in the form `P.C10` that `judge` evaluates - for every coherent prior
     configuration (SELF_TEST idle) and every pair of sensor responses -/
-theorem C10_abstract (chip : Chip) (sh : Regs) (hco : Coherent sh chip.regs) (h7D : chip.regs 0x7D = 0#8) :
+theorem C10_abstract (chip : Chip) (sh : Regs) (hco : Coherent sh chip.regs) :
     P.C10 chip.regs (aexec chip sh (selfTestActs sh) []).1.regs chip.pos chip.neg ((selfTestActs sh).map Act.acc)
       (finishOutcome (selfTestVerdict (aexec chip sh (selfTestActs sh) []).2.2)) := by
   unfold P.C10
   obtain ⟨o1, o2, o3⟩ := C10_order sh
-  refine ⟨⟨_, C10_state_at_excitation sh chip.regs, C10_setup sh chip.regs⟩, o1, o2, o3, ?_, ?_⟩
+  refine ⟨⟨_, C10_state_at_excitation sh chip.regs, C10_setup sh chip.regs⟩, o1, o2, o3, ?_, ?_, ?_⟩
   · rw [C10_reads]; exact C10_verdict chip.pos chip.neg
-  · intro a _; exact (C10_restore chip sh hco h7D).1 a
+  · intro a _ ha; exact (C10_restore_any chip sh hco).1 a ha
+  · exact (C10_restore_any chip sh hco).2
 
 /-- the self test over either transport, fault-free: the run refines the abstract one, so
     journal (C12_exact / C13_exact), verdict and restoration are the abstract ones -/
